@@ -42,6 +42,7 @@ type Ctx struct {
 	counts   map[string]int
 	notes    []string
 	analysed map[string]bool // functions analysed
+	only     map[string]bool // when set (inside Sub): record only these rules
 }
 
 func newCtx(p *Program, prop, tier string) *Ctx {
@@ -49,6 +50,9 @@ func newCtx(p *Program, prop, tier string) *Ctx {
 }
 
 func (c *Ctx) add(rule, construct, status string, pos token.Pos, msg string) {
+	if c.only != nil && !c.only[rule] {
+		return
+	}
 	o := Obligation{Property: c.Prop, Rule: rule, Construct: construct, Status: status, Msg: msg}
 	if pos.IsValid() {
 		o.Pos = c.P.Rel(pos)
@@ -88,7 +92,27 @@ func (c *Ctx) Check(cond bool, rule, construct string, pos token.Pos, okMsg, fai
 }
 
 // Floor declares the minimum number of instances a rule must match.
-func (c *Ctx) Floor(rule string, n int) { c.floors[rule] = n }
+func (c *Ctx) Floor(rule string, n int) {
+	if c.only != nil && !c.only[rule] {
+		return
+	}
+	c.floors[rule] = n
+}
+
+// Sub runs another property's rule set but records only the named rules: a
+// clause of one property that is a necessary condition of another is decided by
+// the same code under both.
+func (c *Ctx) Sub(rules []string, run func(*Ctx)) {
+	saved := c.only
+	c.only = map[string]bool{}
+	for _, r := range rules {
+		c.only[r] = true
+	}
+	notes := len(c.notes)
+	run(c)
+	c.notes = c.notes[:notes]
+	c.only = saved
+}
 
 // Note adds a free-text line to the evidence.
 func (c *Ctx) Note(format string, a ...any) { c.notes = append(c.notes, fmt.Sprintf(format, a...)) }
